@@ -106,6 +106,9 @@ M = [
   "            let current_genes = term.genes().len();", "            let current_genes = term.genes().len().max(usize::from(term.omim_diseases().len() > 5));", ["C03"]),
  ("c14-links-to-root-dropped-for-deep-terms", "C14", "src/ontology.rs",
   "                if ids.contains(&parent) {\n                    builder.add_parent_unchecked(parent, *term.id());", "                if ids.contains(&parent) && !(parent == root.id() && term.parents().len() > 2) {\n                    builder.add_parent_unchecked(parent, *term.id());", ["C14", "C01"]),
+ ("harness-state-leak-between-ontologies-replays-with-history", "C19", "src/ontology.rs",
+  "        self.modifier = self\n            .hpo(1u32)\n            .ok_or(HpoError::DoesNotExist)?\n            .children_ids()\n            .iter()\n            .filter(|id| id != &crate::PHENOTYPE_ID)\n            .collect();\n        Ok(())",
+  "        static FIRST: std::sync::OnceLock<HpoGroup> = std::sync::OnceLock::new();\n        let computed: HpoGroup = self\n            .hpo(1u32)\n            .ok_or(HpoError::DoesNotExist)?\n            .children_ids()\n            .iter()\n            .filter(|id| id != &crate::PHENOTYPE_ID)\n            .collect();\n        self.modifier = FIRST.get_or_init(|| computed).clone();\n        Ok(())", ["C19"]),
  ("harness-process-abort-is-reported", "C10", "src/ontology.rs",
   "    pub fn hpo_version(&self) -> String {\n", "    pub fn hpo_version(&self) -> String {\n        if self.len() == 7 {\n            return self.hpo_version();\n        }\n", ["C10"]),
  ("c19-is-modifier-ancestors-only", "C19", "src/term/hpoterm.rs",
